@@ -38,6 +38,7 @@ func framingBound(inputLen int) uint64 {
 type c22 struct {
 	c     *mon.Ctx
 	dirty dirtyBuf
+	hist  history
 }
 
 // dirtyEncode repeats an Encode into reused dirty buffers (Reset() with spare
@@ -61,6 +62,7 @@ func (m *c22) dirtyEncode(name string, i, need int, enc func(b *bin.Buffer) erro
 			c.Violate("encode|dirty-buffer-failed|"+name, map[string]any{"case": i, "variant": variant, "panic": fmt.Sprint(pv), "stack": stack, "err": fmt.Sprint(err)})
 			return
 		}
+		m.hist.check(c, "Encode of "+name+" into a "+variant+" buffer")
 		if why := check(b.Buf); why != "" {
 			c.Violate("encode|dirty-buffer-differs-from-reference|"+name, map[string]any{"case": i, "variant": variant, "why": why, "encoded_len": len(b.Buf), "encoded": hx(b.Buf)})
 		}
@@ -190,6 +192,16 @@ func (m *c22) roundTrips() {
 				w["left"] = rb.Len()
 				c.Violate("consumed-not-exactly-encoding|container", w)
 			}
+			m.hist.check(c, "container round trip")
+			if pv == nil && decErr == nil && encErr == nil {
+				var bodies [][]byte
+				for k := range dec.Messages {
+					if k < 4 || len(dec.Messages[k].Body) > 1024 {
+						bodies = append(bodies, dec.Messages[k].Body)
+					}
+				}
+				m.hist.keep("container", fmt.Sprintf("MessageContainer.Decode case %d", i), bodies...)
+			}
 			m.dirtyEncode("container", i, len(want), real.Encode, equalTo(want))
 			if len(msgs) > 0 {
 				c.Distinct(fmt.Sprintf("rt/container/n=%s/bytes=%s", sizeClass(len(msgs)), sizeClass(total)))
@@ -226,6 +238,10 @@ func (m *c22) roundTrips() {
 			case !bytes.Equal(rb.Buf, tail):
 				c.Violate("consumed-not-exactly-encoding|message", w)
 			}
+			m.hist.check(c, "message round trip")
+			if pv == nil && decErr == nil && encErr == nil {
+				m.hist.keep("message", fmt.Sprintf("Message.Decode case %d", i), dec.Body)
+			}
 			m.dirtyEncode("message", i, 16+len(x.Body), real.Encode, equalTo(refmodel.FrPutMessage(nil, x)))
 			c.Distinct(fmt.Sprintf("rt/message/bytes=%s/mod4=%d", sizeClass(len(x.Body)), len(x.Body)%4))
 		case 2: // rpc_result, fresh and reused receiver
@@ -261,6 +277,10 @@ func (m *c22) roundTrips() {
 			case rb1.Len() != 0 || rb2.Len() != 0:
 				c.Violate("under-consumed|rpc-result", w)
 			}
+			m.hist.check(c, "rpc_result round trip")
+			if pv == nil && encErr == nil && e1 == nil {
+				m.hist.keep("rpc-result", fmt.Sprintf("Result.Decode (fresh receiver) case %d", i), fresh.Result)
+			}
 			m.dirtyEncode("rpc-result", i, 12+len(body), real.Encode, equalTo(refmodel.FrPutResult(nil, id, body)))
 			c.Distinct(fmt.Sprintf("rt/rpc-result/bytes=%s", sizeClass(len(body))))
 		case 3: // unencrypted message
@@ -295,6 +315,10 @@ func (m *c22) roundTrips() {
 				c.Violate("roundtrip-differs|unencrypted-reused-receiver", w)
 			case !bytes.Equal(rb1.Buf, tail) || !bytes.Equal(rb2.Buf, tail):
 				c.Violate("consumed-not-exactly-encoding|unencrypted", w)
+			}
+			m.hist.check(c, "unencrypted message round trip")
+			if pv == nil && encErr == nil && e1 == nil {
+				m.hist.keep("unencrypted", fmt.Sprintf("UnencryptedMessage.Decode (fresh receiver) case %d", i), fresh.MessageData)
 			}
 			m.dirtyEncode("unencrypted", i, 20+len(body), real.Encode, equalTo(refmodel.FrPutUnencrypted(nil, id, body)))
 			c.Distinct(fmt.Sprintf("rt/unencrypted/bytes=%s", sizeClass(len(body))))
@@ -343,6 +367,10 @@ func (m *c22) roundTrips() {
 					w["reference_reader"] = why
 					c.Violate("gzip-encoding-unreadable-by-reference", w)
 				}
+			}
+			m.hist.check(c, "gzip_packed round trip")
+			if pv == nil && encErr == nil && e1 == nil && e2 == nil {
+				m.hist.keep("gzip", fmt.Sprintf("GZIP.Decode case %d (%s, %d bytes)", i, kind, size), d1.Data, d2.Data)
 			}
 			// gzip_packed carries a TL string: its padding must be zero bytes also in a reused buffer
 			m.dirtyEncode("gzip", i, b.Len(), (proto.GZIP{Data: data}).Encode, func(got []byte) string {
@@ -789,6 +817,9 @@ func (m *c22) runGzip() {
 			if res.Alloc > res.Bound {
 				c.Violate("gzip-alloc-exceeds-bound|"+s.Name, w)
 			}
+			if len(res.HistoryChanged) > 0 {
+				c.Violate("history|earlier-decoded-value-changed|gzip", w)
+			}
 			if res.Err == "" && res.OutLen > gzLimit {
 				c.Violate("gzip-output-exceeds-10MiB|"+s.Name, w)
 			}
@@ -888,6 +919,7 @@ func sizeClassGz(n int) string {
 func runC22(c *mon.Ctx) {
 	c.Rule("Round trips (real Encode into a fresh buffer AND into reused dirty buffers — non-zero backing array after Reset(), bin.Pool Get after a dirty Put — byte-compared with a spec-transcribed reference encoder, real Decode with a sentinel tail): containers of 0..1000 messages with random ids/seqnos and unique bodies 0..1 MiB (incl. exactly 1 MiB), " +
 		"single messages, rpc_result and unencrypted messages (fresh and reused receivers), gzip_packed of random/mixed/text/zero payloads by the real encoder (read back by compress/gzip) and by compress/gzip (read by the real decoder). " +
+		"History: the last 8 decoded values (the returned slices + a private copy) are re-compared after every later Encode/Decode (fresh, dirty-reset and pooled buffers); 6 goroutines run round trips of different payloads concurrently with immediate, post-yield and history comparison. " +
 		"Child batches (single goroutine, allocation meter around every Decode, crash classification): gzip payloads of 10 MiB-1 / 10 MiB / 10 MiB+1 (zeros, random, mixed; both encoders), bombs of 11 MiB..100 MiB (1 GiB thorough) of zeros, " +
 		"concatenated members, truncated streams, corrupt CRC/ISIZE/magic/method, trailing garbage, bit flips, truncated TL object, every damaged or bomb case followed by a valid small object in the same process (pooled reader reuse); " +
 		"hostile containers/messages/unencrypted/rpc_result: count -1/minint/2^31-1/+-1, bytes field -1/minint/2^31-1/>1 MiB with and without data/beyond the buffer, truncations, bit flips, wrong ids, 65536 empty messages, 1 MiB bodies, " +
@@ -898,6 +930,9 @@ func runC22(c *mon.Ctx) {
 	c.Assume("a payload of exactly 10 MiB may be accepted or rejected (statement: never MORE than 10 MiB); a bit flip inside a gzip stream may be accepted when the data is intact")
 	m := &c22{c: c}
 	m.roundTrips()
+	m.hist.check(c, "end of round trips")
+	c.Set("history_rechecks", m.hist.rechecks)
+	m.concurrent()
 	c.Set("dirty_pool_reuse", fmt.Sprintf("%d of %d bin.Pool Get calls returned the dirty buffer just Put", m.dirty.PoolReused, m.dirty.PoolGets))
 	if m.dirty.PoolReused == 0 {
 		c.Inconclusive("bin.Pool never handed back the dirty buffer: pooled-reuse arm not observed")
